@@ -105,6 +105,8 @@ mut('C07-stream-background-writer',
      "    lines = queue.Queue()\n\n    def writer():\n        while True:\n            line = lines.get()\n            if line is None:\n                break\n            file.write(line)\n            file.flush()\n\n    def write(obj):\n        lines.put(ejson.dumps(obj, sort_keys=True, ensure_ascii=True)+'\\n')\n"),
     (P + 'stream.py', "        write(package.pkg.descriptor)\n        yield package.pkg\n        for res in package:\n            yield res_writer(res)\n            file.write('\\n')\n        file.close()\n",
      "        worker = threading.Thread(target=writer, daemon=True)\n        worker.start()\n        write(package.pkg.descriptor)\n        yield package.pkg\n        for res in package:\n            yield res_writer(res)\n            lines.put('\\n')\n        lines.put(None)\n        worker.join(timeout=0.01)\n        file.close()\n"))
+mut('C14-validate-drops-unselected-call', (P + 'validate.py', "            yield from super().process_resource(res)\n", "            yield from super().process_resource()\n"))
+mut('C07-validate-selector-overwritten', (P + 'validate.py', "        self.matcher = ResourceMatcher(self.resources, dp)\n", "        self.matcher = self.resources = ResourceMatcher(self.resources, dp)\n"))
 
 
 def main():
